@@ -557,6 +557,12 @@ def _create_sbml_reactions(
                     # SBML uses species references for derived stoichiometries
                     # So we need to create a assignment rule and then refer to it
                     reference = f"{compound_id}ref"
+                    if sbml_model.getAssignmentRuleByVariable(
+                        _convert_id_to_sbml(id_=reference, prefix="AR")
+                    ):
+                        # Another reaction already has a computed coefficient for this
+                        # compound: every species reference needs its own rule
+                        reference = f"{compound_id}ref_{name}"
                     _create_derived_parameter(sbml_model, reference, factor)
 
                     # The rule carries the signed coefficient, so it is a product
